@@ -86,6 +86,12 @@ for name, L, two in (("x64_api_hist_l1", 1, False), ("x64_api_hist_l2", 2, False
       cex_schema=[("f0", 8, 1), ("f1", 8, 1), ("bytes0", 1, 24), ("bytes1", 1, 24)] + [(x + str(i), sz, 1) for i in range(L) for x, sz in (("k", 8), ("raw", 1), ("t", 8), ("v", 1), ("j", 8))],
       replay="replay_x64_api")
 
+H("x64_api_flavours", variant="x64-linux", modules=["rt", "x64dec", "x64_api"],
+  covers=["COVER: func!", "COVER: closure!", "COVER: func_unchecked! with when_called_unchecked", "COVER: closure_unchecked!"],
+  functions=API_FUNCS + ["func! / closure! / func_unchecked! / closure_unchecked! expansions", "InjectorPP::when_called_unchecked", "WhenCalledBuilder::will_execute_raw_unchecked"] + X64_CORE_FUNCS,
+  symbolic="function address, bytes, register file; the replacement is the real function / closure the macro names (address as Kani assigns it)",
+  bounds="one installation per flavour (4 flavours chosen symbolically); unwind 26", assumptions=API_ASSUME)
+
 # ---------------------------------------------------------------------------------------------
 # family F: 32-bit ARM
 # ---------------------------------------------------------------------------------------------
@@ -343,7 +349,7 @@ PROPERTIES = {
         level_text="Bounded model checking of the real x86-64 installation code: for every function address (any page offset), trampoline placement within the allocator's range and fake address in [1,2^63), an independent x86-64 interpreter started at the function arrives at exactly the fake (or the boolean stub returns the value), and every write hit a page the code had made writable. One installation per harness; the retry loop of the allocator is C11's.",
         level_note="Trusted: the simulated OS/memory model and the stubs that route copy_nonoverlapping to it, the x86-64 interpreter, CBMC. Assumed: cooperative kernel for the first mmap; fake not inside the patched slot. Outside: execution of the fake, concurrent execution of the bytes being patched.",
         quick=["x64_core_redirect", "x64_core_boolean", "win_core_redirect"],
-        thorough=["x64_core_redirect", "x64_core_boolean", "win_core_redirect", "x64_api_hist_l1", "x64_alloc_any_4k", "async_fake_one_of_family"],
+        thorough=["x64_core_redirect", "x64_core_boolean", "win_core_redirect", "x64_api_hist_l1", "x64_api_flavours", "count_restarts_per_installation", "x64_alloc_any_4k", "async_fake_one_of_family"],
         outside=["execution of the fake's own code", "calls already executing inside the first 5/12 bytes while the patch is written",
                  "kernel-half fake addresses (>= 2^63)"],
     ),
@@ -454,7 +460,7 @@ PROPERTIES = {
     "C15": dict(
         level_text="(a) every bit-level emitter against the A64 encoding tables for ALL inputs (all imm16/hw/Rd/sf, all 2^64 addresses in every chunk position, all register numbers); (b) the full installation: an independent A64 interpreter started at the function lands exactly on the trampoline writing no register, the trampoline builds exactly the fake's 64-bit address (all 2^64-1 values in one query) in a register in x9..x17 and branches to it, or sets w0 and returns; (c) displacements outside [-128 MiB,+128 MiB) are refused (panic reachable, nothing accepted outside).",
         level_note="Linux variant. macOS: the pure long-jump encoder maybe_emit_long_jump (B, or ADRP+ADD+BR through x16) is decided for all pc/target pairs within +-4 GiB on the a64-macos variant; the Mach VM remapping in patch_function is not modelled. Replays are simulated.",
-        quick=["a64_emit_mov_tables", "a64_emit_branch_tables", "a64_emit_bits_roundtrip", "a64_core_boolean", "a64_core_refusal", "a64_macos_long_jump"],
+        quick=["a64_emit_mov_tables", "a64_emit_branch_tables", "a64_emit_bits_roundtrip", "a64_core_redirect", "a64_core_boolean", "a64_core_refusal", "a64_macos_long_jump"],
         thorough=["a64_emit_mov_tables", "a64_emit_mov_from_address", "a64_emit_branch_tables", "a64_emit_bits_roundtrip", "a64_core_redirect", "a64_core_boolean", "a64_core_refusal", "a64_macos_long_jump", "a64_alloc_any_4k"],
         timeout_min={"quick": 25, "thorough": 120},
         outside=["macOS long form unless the a64-macos harnesses are listed", "execution on hardware"],
